@@ -531,12 +531,12 @@ Qed.
 
 (* well-formed input is accepted and yields exactly the described table *)
 Definition md_valid (md : option (list mdin)) (n : nat) : Prop :=
-  match md with None => True | Some l => length l = n /\ forallb is_other l = false /\ existsb is_other l = false end.
+  match md with None => True | Some l => length l = n /\ existsb is_other l = false end.
 
 Lemma cast_md_valid md n : md_valid md n -> exists o, cast_md (norm_md md n) = ROk o.
 Proof.
   destruct md as [l|]; simpl; [|intros _; exists None; reflexivity].
-  intros (Hl & _ & Ho).
+  intros (Hl & Ho).
   destruct (negb (Nat.eqb (length l) 0) && forallb falsy l && Nat.eqb (length l) n); [exists None; reflexivity|].
   unfold cast_md. destruct (forallb is_none l); [exists None; reflexivity|]. rewrite Ho. eexists. reflexivity.
 Qed.
@@ -627,4 +627,637 @@ Proof.
   split; [apply (Core p)|]. intros nr nc m D. apply (proj2 (Core default_profile) nr nc m D).
   intros k E. destruct (errcheck_default_cases (view_of nr nc oids sids (norm_md omd (length oids)) (norm_md smd (length sids))))
     as [[_ [k' Hk]]|[_ Hk]]; rewrite Hk in E; discriminate.
+Qed.
+
+(* ================================================================== D. adjacency list *)
+Lemma zins_In x y l : In y (zins x l) <-> x = y \/ In y l.
+Proof.
+  induction l as [|z l IH]; simpl; [tauto|].
+  destruct (Z.ltb x z) eqn:E1; simpl; [tauto|].
+  destruct (Z.eqb x z) eqn:E2; simpl.
+  - apply Z.eqb_eq in E2. subst. tauto.
+  - rewrite IH. tauto.
+Qed.
+
+Lemma sort_uniq_In y l : In y (sort_uniq l) <-> In y l.
+Proof.
+  induction l as [|x l IH]; simpl; [tauto|]. rewrite zins_In, IH. split; intros [H|H]; auto.
+Qed.
+
+Lemma zins_sorted x l : StronglySorted Z.lt l -> StronglySorted Z.lt (zins x l).
+Proof.
+  induction l as [|z l IH]; intros S; simpl.
+  - constructor; constructor.
+  - inversion S as [|? ? Sl Fl]; subst.
+    destruct (Z.ltb x z) eqn:E1.
+    + apply Z.ltb_lt in E1. constructor; [exact S|]. constructor; [exact E1|].
+      eapply Forall_impl; [|exact Fl]. intros a Ha. lia.
+    + destruct (Z.eqb x z) eqn:E2; [exact S|].
+      apply Z.ltb_ge in E1. apply Z.eqb_neq in E2.
+      constructor; [apply IH; exact Sl|].
+      apply Forall_forall. intros a Ha. apply zins_In in Ha. destruct Ha as [<-|Ha]; [lia|].
+      rewrite Forall_forall in Fl. apply Fl. exact Ha.
+Qed.
+
+Lemma sort_uniq_sorted l : StronglySorted Z.lt (sort_uniq l).
+Proof. induction l as [|x l IH]; simpl; [constructor|apply zins_sorted; exact IH]. Qed.
+
+Lemma sorted_NoDup l : StronglySorted Z.lt l -> NoDup l.
+Proof.
+  induction l as [|x l IH]; intros S; [constructor|]. inversion S as [|? ? Sl Fl]; subst.
+  constructor; [|apply IH; exact Sl]. intros Hin. rewrite Forall_forall in Fl. specialize (Fl x Hin). lia.
+Qed.
+
+Lemma sort_uniq_NoDup l : NoDup (sort_uniq l).
+Proof. apply sorted_NoDup. apply sort_uniq_sorted. Qed.
+
+Lemma posn_spec x l : In x l -> posn x l < length l /\ nth (posn x l) l 0%Z = x /\ pos x l = Some (posn x l).
+Proof.
+  intros H. unfold posn. destruct (pos x l) as [i|] eqn:E.
+  - destruct (pos_Some x l i E) as [A B]. tauto.
+  - apply pos_None in E. contradiction.
+Qed.
+
+Lemma posn_inj x y l : In x l -> In y l -> posn x l = posn y l -> x = y.
+Proof.
+  intros Hx Hy E. destruct (posn_spec x l Hx) as (_ & A & _). destruct (posn_spec y l Hy) as (_ & B & _).
+  rewrite E in A. congruence.
+Qed.
+
+Lemma nmax_posn (xs : list Z) l : l <> [] -> NoDup l -> (forall x, In x l <-> In x xs) ->
+  S (nmax (map (fun x => posn x l) xs)) = length l.
+Proof.
+  intros Hne Nd Hiff.
+  assert (Hle : nmax (map (fun x => posn x l) xs) <= length l - 1).
+  { apply nmax_le. intros p Hp. apply in_map_iff in Hp. destruct Hp as [x [<- Hx]].
+    apply Hiff in Hx. destruct (posn_spec x l Hx). lia. }
+  assert (Hge : length l - 1 <= nmax (map (fun x => posn x l) xs)).
+  { apply nmax_ge. apply in_map_iff. exists (nth (length l - 1) l 0%Z).
+    assert (Hl : length l - 1 < length l) by (destruct l; [contradiction|simpl; lia]).
+    split.
+    - unfold posn. rewrite (pos_nth_NoDup l (length l - 1) Nd Hl). reflexivity.
+    - apply Hiff. apply nth_In. exact Hl. }
+  destruct l; [contradiction|]. simpl in *. lia.
+Qed.
+
+(* the sum of the values of the records naming a pair *)
+Definition pair_sum (recs : list (Z * Z * Z)) (o s : Z) : Z :=
+  zsum (map snd (filter (fun r => Z.eqb (fst (fst r)) o && Z.eqb (snd (fst r)) s) recs)).
+
+Lemma cell_sum_recs (recs : list (Z * Z * Z)) oo so o s :
+  (forall r, In r recs -> In (fst (fst r)) oo /\ In (snd (fst r)) so) -> In o oo -> In s so ->
+  cell_sum (map (fun r => (posn (fst (fst r)) oo, posn (snd (fst r)) so, snd r)) recs) (posn o oo) (posn s so)
+  = pair_sum recs o s.
+Proof.
+  intros H Ho Hs. induction recs as [|[[o' s'] v] recs IH]; [reflexivity|].
+  cbn [map]. rewrite cell_sum_cons. unfold pair_sum in *. cbn [filter fst snd].
+  rewrite IH by (intros r Hr; apply H; right; exact Hr).
+  destruct (H (o', s', v) (or_introl eq_refl)) as [Ho' Hs']. simpl in Ho', Hs'.
+  unfold at_cell, e_row, e_col, e_val. cbn [fst snd].
+  destruct (Z.eqb o' o) eqn:E1.
+  - apply Z.eqb_eq in E1. subst o'. rewrite Nat.eqb_refl. simpl.
+    destruct (Z.eqb s' s) eqn:E2.
+    + apply Z.eqb_eq in E2. subst s'. rewrite Nat.eqb_refl. simpl. reflexivity.
+    + replace (Nat.eqb (posn s' so) (posn s so)) with false; [reflexivity|].
+      symmetry. apply Nat.eqb_neq. intros E. apply Z.eqb_neq in E2. apply E2. apply (posn_inj _ _ so); assumption.
+  - replace (Nat.eqb (posn o' oo) (posn o oo)) with false; [reflexivity|].
+    symmetry. apply Nat.eqb_neq. intros E. apply Z.eqb_neq in E1. apply E1. apply (posn_inj _ _ oo); assumption.
+Qed.
+
+Lemma adj_table_unfold p recs : recs <> [] ->
+  adj_table p recs =
+    let obs := map (fun r : Z * Z * Z => fst (fst r)) recs in
+    let smp := map (fun r : Z * Z * Z => snd (fst r)) recs in
+    let oo := sort_uniq obs in let so := sort_uniq smp in
+    construct p (InSparse (S (nmax (map (fun o => posn o oo) obs))) (S (nmax (map (fun s => posn s so) smp)))
+                          (map (fun r : Z * Z * Z => (posn (fst (fst r)) oo, posn (snd (fst r)) so, snd r)) recs))
+              oo so None None 0%Z.
+Proof. intros H. destruct recs; [contradiction|reflexivity]. Qed.
+
+Theorem adj_table_spec recs : recs <> [] ->
+  exists t, adj_table default_profile recs = ROk t /\
+    oids t = sort_uniq (map (fun r => fst (fst r)) recs) /\
+    sids t = sort_uniq (map (fun r => snd (fst r)) recs) /\
+    omd t = None /\ smd t = None /\ wf t /\
+    forall o s, In o (oids t) -> In s (sids t) -> cell t o s = Some (pair_sum recs o s).
+Proof.
+  intros Hne.
+  set (obs := map (fun r : Z * Z * Z => fst (fst r)) recs).
+  set (smp := map (fun r : Z * Z * Z => snd (fst r)) recs).
+  set (oo := sort_uniq obs). set (so := sort_uniq smp).
+  set (es := map (fun r : Z * Z * Z => (posn (fst (fst r)) oo, posn (snd (fst r)) so, snd r)) recs).
+  assert (Hoo : oo <> []).
+  { destruct recs as [|r recs]; [contradiction|]. intros E.
+    assert (In (fst (fst r)) oo) by (apply sort_uniq_In; left; reflexivity). rewrite E in H. destruct H. }
+  assert (Hso : so <> []).
+  { destruct recs as [|r recs]; [contradiction|]. intros E.
+    assert (In (snd (fst r)) so) by (apply sort_uniq_In; left; reflexivity). rewrite E in H. destruct H. }
+  assert (Hr : S (nmax (map (fun o => posn o oo) obs)) = length oo)
+    by (apply nmax_posn; [exact Hoo|apply sort_uniq_NoDup|intros x; apply sort_uniq_In]).
+  assert (Hc : S (nmax (map (fun s => posn s so) smp)) = length so)
+    by (apply nmax_posn; [exact Hso|apply sort_uniq_NoDup|intros x; apply sort_uniq_In]).
+  assert (Hmem : forall r, In r recs -> In (fst (fst r)) oo /\ In (snd (fst r)) so).
+  { intros r Hin. split; apply sort_uniq_In; [apply (in_map (fun r => fst (fst r)))|apply (in_map (fun r => snd (fst r)))]; exact Hin. }
+  assert (Hrange : forallb (in_range (length oo) (length so)) es = true).
+  { apply forallb_forall. intros e He. apply in_map_iff in He. destruct He as [r [<- Hin]].
+    destruct (Hmem r Hin) as [A B]. unfold in_range, e_row, e_col. cbn [fst snd].
+    destruct (posn_spec _ _ A) as [A' _]. destruct (posn_spec _ _ B) as [B' _].
+    apply andb_true_iff. split; apply Nat.ltb_lt; assumption. }
+  assert (D : to_dense (InSparse (length oo) (length so) es) (length oo, length so)
+              = ROk (length oo, length so, coo_dense (length oo) (length so) es)).
+  { unfold to_dense, to_coo, coo_checked. rewrite Hrange. reflexivity. }
+  destruct (wellformed_accepted_lemma _ oo so None None 0%Z _ D (sort_uniq_NoDup obs) (sort_uniq_NoDup smp) Logic.I Logic.I)
+    as (o' & s' & Eo & Es & C). simpl in Eo, Es. inversion Eo; subst o'. inversion Es; subst s'.
+  exists (mkT oo so (coo_dense (length oo) (length so) es) None None 0%Z).
+  split.
+  - rewrite (adj_table_unfold default_profile recs Hne). cbv zeta.
+    change (construct default_profile
+              (InSparse (S (nmax (map (fun o => posn o oo) obs))) (S (nmax (map (fun s => posn s so) smp))) es)
+              oo so None None 0%Z = ROk (mkT oo so (coo_dense (length oo) (length so) es) None None 0%Z)).
+    rewrite Hr, Hc. exact C.
+  - cbn [oids sids omd smd]. repeat (split; [reflexivity|]). split.
+    + unfold wf, nobs, nsamp. cbn [mat oids sids omd smd]. rewrite coo_dense_length.
+      split; [reflexivity|]. split; [apply coo_dense_rect|].
+      split; [apply sort_uniq_NoDup|]. split; [apply sort_uniq_NoDup|]. split; exact Logic.I.
+    + intros o s Ho Hs. unfold cell. cbn [oids sids mat].
+      destruct (posn_spec o oo Ho) as (A1 & _ & A3). destruct (posn_spec s so Hs) as (B1 & _ & B3).
+      rewrite A3, B3. f_equal. rewrite get_coo_dense by assumption.
+      apply cell_sum_recs; assumption.
+Qed.
+
+Lemma adj_records_lr_recs recs acc :
+  adj_records_lr (map (fun r => ARec (fst (fst r)) (snd (fst r)) (snd r)) recs) acc = ROk (rev acc ++ recs).
+Proof.
+  revert acc. induction recs as [|[[o s] v] recs IH]; intros acc; simpl.
+  - rewrite app_nil_r. reflexivity.
+  - rewrite IH. simpl. rewrite <- app_assoc. reflexivity.
+Qed.
+
+Definition rec_lines (recs : list (Z * Z * Z)) : list aline :=
+  map (fun r => ARec (fst (fst r)) (snd (fst r)) (snd r)) recs.
+
+Theorem from_adjacency_records p recs header : recs <> [] ->
+  from_adjacency p ((if header : bool then [AHeader] else []) ++ rec_lines recs) = adj_table p recs.
+Proof.
+  intros Hne. destruct header; simpl.
+  - unfold rec_lines. rewrite adj_records_lr_recs. reflexivity.
+  - destruct recs as [|[[o s] v] recs]; [contradiction|].
+    change (rec_lines ((o, s, v) :: recs)) with (ARec o s v :: rec_lines recs).
+    cbn [from_adjacency]. change (ARec o s v :: rec_lines recs) with (rec_lines ((o, s, v) :: recs)).
+    unfold rec_lines. rewrite adj_records_lr_recs. reflexivity.
+Qed.
+
+(* a comment, blank or malformed line, a second header, or no record at all: never a table *)
+Lemma adj_records_lr_junk pre x post acc :
+  (forall l, In l pre -> exists o s v, l = ARec o s v) -> (forall o s v, x <> ARec o s v) ->
+  exists c, adj_records_lr (pre ++ x :: post) acc = RErr c.
+Proof.
+  revert acc. induction pre as [|l pre IH]; intros acc Hp Hx; simpl.
+  - destruct x as [|o s v|[|]]; try (eexists; reflexivity). exfalso. apply (Hx o s v). reflexivity.
+  - destruct (Hp l (or_introl eq_refl)) as (o & s & v & ->). apply IH; [|exact Hx].
+    intros l' Hl'. apply Hp. right. exact Hl'.
+Qed.
+
+(* ================================================================== E. uc clusters *)
+Lemma label_eqb_eq a b : label_eqb a b = true <-> a = b.
+Proof. apply list_eqb_Z_eq. Qed.
+Lemma label_eqb_refl a : label_eqb a a = true.
+Proof. apply label_eqb_eq. reflexivity. Qed.
+
+Lemma lpos_Some x l i : lpos x l = Some i -> i < length l /\ nth i l [] = x.
+Proof.
+  unfold lpos. revert i. induction l as [|y l IH]; simpl; intros i H; [discriminate|].
+  destruct (label_eqb x y) eqn:E.
+  - inversion H; subst. apply label_eqb_eq in E. subst. simpl. split; [lia|reflexivity].
+  - destruct (index_of label_eqb x l) as [k|]; simpl in H; [|discriminate]. inversion H; subst.
+    destruct (IH k eq_refl). simpl. split; [lia|assumption].
+Qed.
+
+Lemma lpos_None x l : lpos x l = None -> ~ In x l.
+Proof.
+  unfold lpos. induction l as [|y l IH]; simpl; intros H; [tauto|].
+  destruct (label_eqb x y) eqn:E; [discriminate|].
+  destruct (index_of label_eqb x l) as [k|] eqn:K; simpl in H; [discriminate|].
+  intros [F|F]; [subst; rewrite label_eqb_refl in E; discriminate|]. apply IH; [reflexivity|exact F].
+Qed.
+
+Lemma lpos_app_l x l l' i : lpos x l = Some i -> lpos x (l ++ l') = Some i.
+Proof.
+  unfold lpos. revert i. induction l as [|y l IH]; simpl; intros i H; [discriminate|].
+  destruct (label_eqb x y); [exact H|].
+  destruct (index_of label_eqb x l) as [k|]; simpl in H; [|discriminate]. inversion H; subst.
+  rewrite (IH k eq_refl). reflexivity.
+Qed.
+
+Lemma lpos_snoc_new x l : lpos x l = None -> lpos x (l ++ [x]) = Some (length l).
+Proof.
+  unfold lpos. induction l as [|y l IH]; simpl; intros H.
+  - rewrite label_eqb_refl. reflexivity.
+  - destruct (label_eqb x y); [discriminate|].
+    destruct (index_of label_eqb x l) as [k|]; simpl in H; [discriminate|]. rewrite IH by reflexivity. reflexivity.
+Qed.
+
+Lemma lpos_same_index x y l i : lpos x l = Some i -> lpos y l = Some i -> x = y.
+Proof. intros A B. destruct (lpos_Some _ _ _ A). destruct (lpos_Some _ _ _ B). congruence. Qed.
+
+(* intern: the id gets its first-seen position; earlier ids keep theirs *)
+Lemma intern_spec x l : let '(i, l') := intern x l in
+  lpos x l' = Some i /\ (exists ext, l' = l ++ ext) /\ i < length l' /\
+  (forall y k, lpos y l = Some k -> lpos y l' = Some k).
+Proof.
+  unfold intern. destruct (lpos x l) as [i|] eqn:E.
+  - split; [exact E|]. split; [exists []; rewrite app_nil_r; reflexivity|].
+    split; [apply (lpos_Some _ _ _ E)|]. intros; assumption.
+  - split; [apply lpos_snoc_new; exact E|]. split; [exists [x]; reflexivity|].
+    split; [rewrite app_length; simpl; lia|]. intros y k H. apply lpos_app_l. exact H.
+Qed.
+
+Lemma intern_new x l i l' ext y : intern x l = (i, l') -> l' = l ++ ext -> In y ext -> y = x.
+Proof.
+  intros H E Hy. unfold intern in H. destruct (lpos x l).
+  - inversion H as [[H1 H2]]. rewrite <- H2 in E. apply (f_equal (@length label)) in E. rewrite app_length in E.
+    destruct ext; [destruct Hy|simpl in E; lia].
+  - inversion H as [[H1 H2]]. rewrite <- H2 in E. apply app_inv_head in E. subst ext. destruct Hy as [<-|[]]. reflexivity.
+Qed.
+
+Lemma cell_sum_dincr d i j i' j' :
+  cell_sum (dincr d i j) i' j' = (cell_sum d i' j' + if Nat.eqb i i' && Nat.eqb j j' then 1 else 0)%Z.
+Proof.
+  induction d as [|e d IH]; simpl.
+  - rewrite cell_sum_cons, cell_sum_nil. unfold at_cell, e_row, e_col, e_val. simpl.
+    destruct (Nat.eqb i i' && Nat.eqb j j'); lia.
+  - destruct (at_cell i j e) eqn:E.
+    + rewrite !cell_sum_cons. unfold at_cell, e_row, e_col, e_val in *. cbn [fst snd] in *.
+      apply andb_true_iff in E. destruct E as [E1 E2]. apply Nat.eqb_eq in E1. apply Nat.eqb_eq in E2.
+      rewrite E1, E2. destruct (Nat.eqb i i' && Nat.eqb j j'); lia.
+    + rewrite !cell_sum_cons, IH. lia.
+Qed.
+
+Lemma dincr_range d i j nr nc : i < nr -> j < nc ->
+  forallb (in_range nr nc) d = true -> forallb (in_range nr nc) (dincr d i j) = true.
+Proof.
+  intros Hi Hj. induction d as [|e d IH]; simpl; intros H.
+  - unfold in_range, e_row, e_col. simpl. rewrite andb_true_r. apply andb_true_iff. split; apply Nat.ltb_lt; assumption.
+  - apply andb_true_iff in H. destruct H as [H1 H2]. destruct (at_cell i j e); simpl.
+    + rewrite H2, andb_true_r. unfold in_range, e_row, e_col. simpl. apply andb_true_iff. split; apply Nat.ltb_lt; assumption.
+    + rewrite H1. apply IH. exact H2.
+Qed.
+
+Lemma in_range_mono nr nc nr' nc' d : nr <= nr' -> nc <= nc' ->
+  forallb (in_range nr nc) d = true -> forallb (in_range nr' nc') d = true.
+Proof.
+  intros A B. rewrite !forallb_forall. intros H e He. specialize (H e He). unfold in_range in *.
+  apply andb_true_iff in H. destruct H as [H1 H2]. apply Nat.ltb_lt in H1. apply Nat.ltb_lt in H2.
+  apply andb_true_iff. split; apply Nat.ltb_lt; lia.
+Qed.
+
+(* which records count *)
+Definition is_hs (r : urec) : bool := match u_kind r with UH | US => true | _ => false end.
+Definition is_live (r : urec) : bool := match u_kind r with UOther => false | _ => true end.
+Definition names (O S : list label) (i j : nat) (r : urec) : bool :=
+  is_hs r &&
+  match lpos (observation_of r) O, rsplit_us (u_query r) with
+  | Some i', Some sid => Nat.eqb i' i && match lpos sid S with Some j' => Nat.eqb j' j | None => false end
+  | _, _ => false
+  end.
+Definition zcount {A} (p : A -> bool) (l : list A) : Z := zsum (map (fun x => if p x then 1%Z else 0%Z) l).
+
+Lemma zcount_app {A} (p : A -> bool) a b : zcount p (a ++ b) = (zcount p a + zcount p b)%Z.
+Proof. unfold zcount. rewrite map_app, zsum_app. reflexivity. Qed.
+
+Lemma zcount_ext {A} (p q : A -> bool) l : (forall x, In x l -> p x = q x) -> zcount p l = zcount q l.
+Proof.
+  unfold zcount. intros H. f_equal. apply map_ext_in. intros x Hx. rewrite (H x Hx). reflexivity.
+Qed.
+
+Record uc_inv (rs : list urec) (s : ustate) : Prop := {
+  inv_count : forall i j, cell_sum (us_data s) i j = zcount (names (us_obs s) (us_samp s) i j) rs;
+  inv_obs : forall r, In r rs -> is_live r = true -> lpos (observation_of r) (us_obs s) <> None;
+  inv_samp : forall r sid, In r rs -> is_hs r = true -> rsplit_us (u_query r) = Some sid -> lpos sid (us_samp s) <> None;
+  inv_range : forallb (in_range (length (us_obs s)) (length (us_samp s))) (us_data s) = true;
+  inv_obs_only : forall x, In x (us_obs s) -> exists r, In r rs /\ is_live r = true /\ observation_of r = x;
+  inv_samp_only : forall x, In x (us_samp s) -> exists r, In r rs /\ is_hs r = true /\ rsplit_us (u_query r) = Some x
+}.
+
+Lemma names_stable O S O' S' i j r :
+  (forall y k, lpos y O = Some k -> lpos y O' = Some k) -> (forall y k, lpos y S = Some k -> lpos y S' = Some k) ->
+  (is_live r = true -> lpos (observation_of r) O <> None) ->
+  (forall sid, is_hs r = true -> rsplit_us (u_query r) = Some sid -> lpos sid S <> None) ->
+  names O' S' i j r = names O S i j r.
+Proof.
+  intros HO HS Lo Ls. unfold names. destruct (is_hs r) eqn:Eh; [|reflexivity]. simpl.
+  assert (Hl : is_live r = true) by (unfold is_hs, is_live in *; destruct (u_kind r); try discriminate; reflexivity).
+  specialize (Lo Hl). destruct (lpos (observation_of r) O) as [k|] eqn:E; [|contradiction].
+  rewrite (HO _ _ E). destruct (rsplit_us (u_query r)) as [sid|] eqn:Er; [|reflexivity].
+  specialize (Ls sid eq_refl eq_refl). destruct (lpos sid S) as [k'|] eqn:E'; [|contradiction].
+  rewrite (HS _ _ E'). reflexivity.
+Qed.
+
+Lemma uc_step_inv rs s r : uc_inv rs s ->
+  match uc_step (ROk s) r with
+  | ROk s' => uc_inv (rs ++ [r]) s'
+  | RErr c => c = E_VALUE /\ is_hs r = true /\ rsplit_us (u_query r) = None
+  end.
+Proof.
+  intros [Ic Io Is Ir Oo So]. unfold uc_step.
+  destruct (u_kind r) eqn:Ek.
+  all: try (pose proof (intern_spec (observation_of r) (us_obs s)) as IO;
+            destruct (intern (observation_of r) (us_obs s)) as [oi obs'] eqn:Eo;
+            destruct IO as (IO1 & (ext & IO2) & IO3 & IO4)).
+  - (* H *)
+    destruct (rsplit_us (u_query r)) as [sid|] eqn:Er;
+      [|split; [reflexivity|split; [unfold is_hs; rewrite Ek; reflexivity|reflexivity]]].
+    pose proof (intern_spec sid (us_samp s)) as IS.
+    destruct (intern sid (us_samp s)) as [si samp'] eqn:Es. destruct IS as (IS1 & (ext' & IS2) & IS3 & IS4).
+    constructor; cbn [us_obs us_samp us_data].
+    + intros i j. rewrite cell_sum_dincr, zcount_app, Ic. f_equal.
+      * apply zcount_ext. intros x Hx. symmetry. apply names_stable; try assumption.
+        -- intros Hl. apply Io; assumption.
+        -- intros sd Hh Hr. apply (Is x); assumption.
+      * unfold zcount. simpl. unfold names. unfold is_hs. rewrite Ek, IO1, Er, IS1. simpl.
+        destruct (Nat.eqb oi i && Nat.eqb si j); lia.
+    + intros x Hx Hl. apply in_app_iff in Hx. destruct Hx as [Hx|[<-|[]]].
+      * specialize (Io x Hx Hl). destruct (lpos (observation_of x) (us_obs s)) as [k|] eqn:E; [|contradiction].
+        rewrite (IO4 _ _ E). discriminate.
+      * rewrite IO1. discriminate.
+    + intros x sd Hx Hh Hr. apply in_app_iff in Hx. destruct Hx as [Hx|[<-|[]]].
+      * specialize (Is x sd Hx Hh Hr). destruct (lpos sd (us_samp s)) as [k|] eqn:E; [|contradiction].
+        rewrite (IS4 _ _ E). discriminate.
+      * rewrite Er in Hr. inversion Hr; subst. rewrite IS1. discriminate.
+    + apply dincr_range; [exact IO3|exact IS3|].
+      apply (in_range_mono (length (us_obs s)) (length (us_samp s))); [rewrite IO2, app_length; lia|rewrite IS2, app_length; lia|exact Ir].
+    + intros x Hx. rewrite IO2 in Hx. apply in_app_iff in Hx. destruct Hx as [Hx|Hx].
+      * destruct (Oo x Hx) as (r' & A & B & C). exists r'. split; [apply in_app_iff; left; exact A|tauto].
+      * exists r. split; [apply in_app_iff; right; left; reflexivity|].
+        split; [unfold is_live; rewrite Ek; reflexivity|].
+        symmetry. apply (intern_new _ _ _ _ _ _ Eo IO2 Hx).
+    + intros x Hx. rewrite IS2 in Hx. apply in_app_iff in Hx. destruct Hx as [Hx|Hx].
+      * destruct (So x Hx) as (r' & A & B & C). exists r'. split; [apply in_app_iff; left; exact A|tauto].
+      * exists r. split; [apply in_app_iff; right; left; reflexivity|].
+        split; [unfold is_hs; rewrite Ek; reflexivity|].
+        rewrite (intern_new _ _ _ _ _ _ Es IS2 Hx). exact Er.
+  - (* S: the same as H *)
+    destruct (rsplit_us (u_query r)) as [sid|] eqn:Er;
+      [|split; [reflexivity|split; [unfold is_hs; rewrite Ek; reflexivity|reflexivity]]].
+    pose proof (intern_spec sid (us_samp s)) as IS.
+    destruct (intern sid (us_samp s)) as [si samp'] eqn:Es. destruct IS as (IS1 & (ext' & IS2) & IS3 & IS4).
+    constructor; cbn [us_obs us_samp us_data].
+    + intros i j. rewrite cell_sum_dincr, zcount_app, Ic. f_equal.
+      * apply zcount_ext. intros x Hx. symmetry. apply names_stable; try assumption.
+        -- intros Hl. apply Io; assumption.
+        -- intros sd Hh Hr. apply (Is x); assumption.
+      * unfold zcount. simpl. unfold names. unfold is_hs. rewrite Ek, IO1, Er, IS1. simpl.
+        destruct (Nat.eqb oi i && Nat.eqb si j); lia.
+    + intros x Hx Hl. apply in_app_iff in Hx. destruct Hx as [Hx|[<-|[]]].
+      * specialize (Io x Hx Hl). destruct (lpos (observation_of x) (us_obs s)) as [k|] eqn:E; [|contradiction].
+        rewrite (IO4 _ _ E). discriminate.
+      * rewrite IO1. discriminate.
+    + intros x sd Hx Hh Hr. apply in_app_iff in Hx. destruct Hx as [Hx|[<-|[]]].
+      * specialize (Is x sd Hx Hh Hr). destruct (lpos sd (us_samp s)) as [k|] eqn:E; [|contradiction].
+        rewrite (IS4 _ _ E). discriminate.
+      * rewrite Er in Hr. inversion Hr; subst. rewrite IS1. discriminate.
+    + apply dincr_range; [exact IO3|exact IS3|].
+      apply (in_range_mono (length (us_obs s)) (length (us_samp s))); [rewrite IO2, app_length; lia|rewrite IS2, app_length; lia|exact Ir].
+    + intros x Hx. rewrite IO2 in Hx. apply in_app_iff in Hx. destruct Hx as [Hx|Hx].
+      * destruct (Oo x Hx) as (r' & A & B & C). exists r'. split; [apply in_app_iff; left; exact A|tauto].
+      * exists r. split; [apply in_app_iff; right; left; reflexivity|].
+        split; [unfold is_live; rewrite Ek; reflexivity|].
+        symmetry. apply (intern_new _ _ _ _ _ _ Eo IO2 Hx).
+    + intros x Hx. rewrite IS2 in Hx. apply in_app_iff in Hx. destruct Hx as [Hx|Hx].
+      * destruct (So x Hx) as (r' & A & B & C). exists r'. split; [apply in_app_iff; left; exact A|tauto].
+      * exists r. split; [apply in_app_iff; right; left; reflexivity|].
+        split; [unfold is_hs; rewrite Ek; reflexivity|].
+        rewrite (intern_new _ _ _ _ _ _ Es IS2 Hx). exact Er.
+  - (* L *)
+    constructor; cbn [us_obs us_samp us_data].
+    + intros i j. rewrite zcount_app, Ic.
+      replace (zcount (names obs' (us_samp s) i j) [r]) with 0%Z
+        by (unfold zcount; simpl; unfold names, is_hs; rewrite Ek; reflexivity).
+      rewrite Z.add_0_r. apply zcount_ext. intros x Hx. symmetry. apply names_stable; try assumption.
+      * intros; assumption.
+      * intros Hl. apply Io; assumption.
+      * intros sd Hh Hr. apply (Is x); assumption.
+    + intros x Hx Hl. apply in_app_iff in Hx. destruct Hx as [Hx|[<-|[]]].
+      * specialize (Io x Hx Hl). destruct (lpos (observation_of x) (us_obs s)) as [k|] eqn:E; [|contradiction].
+        rewrite (IO4 _ _ E). discriminate.
+      * rewrite IO1. discriminate.
+    + intros x sd Hx Hh Hr. apply in_app_iff in Hx. destruct Hx as [Hx|[<-|[]]].
+      * apply (Is x sd Hx Hh Hr).
+      * unfold is_hs in Hh. rewrite Ek in Hh. discriminate.
+    + apply (in_range_mono (length (us_obs s)) (length (us_samp s))); [rewrite IO2, app_length; lia|lia|exact Ir].
+    + intros x Hx. rewrite IO2 in Hx. apply in_app_iff in Hx. destruct Hx as [Hx|Hx].
+      * destruct (Oo x Hx) as (r' & A & B & C). exists r'. split; [apply in_app_iff; left; exact A|tauto].
+      * exists r. split; [apply in_app_iff; right; left; reflexivity|].
+        split; [unfold is_live; rewrite Ek; reflexivity|].
+        symmetry. apply (intern_new _ _ _ _ _ _ Eo IO2 Hx).
+    + intros x Hx. destruct (So x Hx) as (r' & A & B & C). exists r'. split; [apply in_app_iff; left; exact A|tauto].
+  - (* other *)
+    constructor.
+    + intros i j. rewrite zcount_app, Ic.
+      replace (zcount (names (us_obs s) (us_samp s) i j) [r]) with 0%Z
+        by (unfold zcount; simpl; unfold names, is_hs; rewrite Ek; reflexivity). lia.
+    + intros x Hx Hl. apply in_app_iff in Hx. destruct Hx as [Hx|[<-|[]]]; [apply Io; assumption|].
+      unfold is_live in Hl. rewrite Ek in Hl. discriminate.
+    + intros x sd Hx Hh Hr. apply in_app_iff in Hx. destruct Hx as [Hx|[<-|[]]]; [apply (Is x); assumption|].
+      unfold is_hs in Hh. rewrite Ek in Hh. discriminate.
+    + exact Ir.
+    + intros x Hx. destruct (Oo x Hx) as (r' & A & B & C). exists r'. split; [apply in_app_iff; left; exact A|tauto].
+    + intros x Hx. destruct (So x Hx) as (r' & A & B & C). exists r'. split; [apply in_app_iff; left; exact A|tauto].
+Qed.
+
+Lemma uc_inv_init : uc_inv [] (mkUS [] [] []).
+Proof.
+  constructor; simpl; try reflexivity; try (intros; contradiction).
+Qed.
+
+Lemma uc_fold_snoc rs r : uc_fold (rs ++ [r]) = uc_step (uc_fold rs) r.
+Proof. unfold uc_fold. rewrite fold_left_app. reflexivity. Qed.
+
+Theorem uc_fold_inv rs :
+  match uc_fold rs with
+  | ROk s => uc_inv rs s
+  | RErr c => c = E_VALUE /\ exists r, In r rs /\ is_hs r = true /\ rsplit_us (u_query r) = None
+  end.
+Proof.
+  induction rs as [|r rs IH] using rev_ind.
+  - exact uc_inv_init.
+  - rewrite uc_fold_snoc. destruct (uc_fold rs) as [s|c].
+    + pose proof (uc_step_inv rs s r IH) as H. destruct (uc_step (ROk s) r) as [s'|c']; [exact H|].
+      destruct H as (A & B & C). split; [exact A|]. exists r. split; [apply in_app_iff; right; left; reflexivity|tauto].
+    + simpl. destruct IH as (A & r' & B & C). split; [exact A|]. exists r'. split; [apply in_app_iff; left; exact B|exact C].
+Qed.
+
+Lemma eqb_lpos x y l i i' : lpos x l = Some i' -> lpos y l = Some i -> Nat.eqb i' i = label_eqb x y.
+Proof.
+  intros A B. destruct (Nat.eqb i' i) eqn:E.
+  - apply Nat.eqb_eq in E. subst. symmetry. apply label_eqb_eq. apply (lpos_same_index _ _ _ _ A B).
+  - destruct (label_eqb x y) eqn:E2; [|reflexivity]. apply label_eqb_eq in E2. subst.
+    rewrite A in B. inversion B; subst. rewrite Nat.eqb_refl in E. discriminate.
+Qed.
+
+(* the records naming the pair (seed o, sample s) *)
+Definition names_pair (o s : label) (r : urec) : bool :=
+  is_hs r && label_eqb (observation_of r) o &&
+  match rsplit_us (u_query r) with Some sid => label_eqb sid s | None => false end.
+
+Theorem uc_count_lemma rs t : parse_uc rs = ROk t ->
+  (forall o s i j, lpos o (ut_obs t) = Some i -> lpos s (ut_samp t) = Some j ->
+     get (ut_mat t) i j = zcount (names_pair o s) rs) /\
+  (forall x, In x (ut_obs t) <-> exists r, In r rs /\ is_live r = true /\ observation_of r = x) /\
+  (forall x, In x (ut_samp t) <-> exists r, In r rs /\ is_hs r = true /\ rsplit_us (u_query r) = Some x) /\
+  length (ut_mat t) = length (ut_obs t) /\ rect (length (ut_samp t)) (ut_mat t).
+Proof.
+  unfold parse_uc. pose proof (uc_fold_inv rs) as Inv. destruct (uc_fold rs) as [s|c]; [|discriminate].
+  destruct Inv as [Ic Io Is Ir Oo So]. unfold uc_matrix, to_dense, to_coo, coo_checked. cbn [fst snd]. rewrite Ir.
+  intros H. inversion H; subst t; clear H. cbn [ut_obs ut_samp ut_mat].
+  split; [|split; [|split; [|split; [apply coo_dense_length|apply coo_dense_rect]]]].
+  - intros o sm i j Ho Hs.
+    destruct (lpos_Some _ _ _ Ho) as [Hi _]. destruct (lpos_Some _ _ _ Hs) as [Hj _].
+    rewrite get_coo_dense by assumption. rewrite Ic. apply zcount_ext. intros r Hr.
+    unfold names, names_pair. destruct (is_hs r) eqn:Eh; [|reflexivity]. simpl.
+    assert (Hl : is_live r = true) by (unfold is_hs, is_live in *; destruct (u_kind r); try discriminate; reflexivity).
+    pose proof (Io r Hr Hl) as N. destruct (lpos (observation_of r) (us_obs s)) as [i'|] eqn:E; [|contradiction].
+    destruct (rsplit_us (u_query r)) as [sid|] eqn:Er; [|rewrite andb_false_r; reflexivity].
+    pose proof (Is r sid Hr Eh Er) as N2. destruct (lpos sid (us_samp s)) as [j'|] eqn:E2; [|contradiction].
+    rewrite (eqb_lpos _ _ _ _ _ E Ho), (eqb_lpos _ _ _ _ _ E2 Hs). reflexivity.
+  - intros x. split; [apply Oo|]. intros (r & A & B & C). subst x.
+    pose proof (Io r A B) as N. destruct (lpos (observation_of r) (us_obs s)) as [k|] eqn:E; [|contradiction].
+    destruct (lpos_Some _ _ _ E) as [Hk <-]. apply nth_In. exact Hk.
+  - intros x. split; [apply So|]. intros (r & A & B & C).
+    pose proof (Is r x A B C) as N. destruct (lpos x (us_samp s)) as [k|] eqn:E; [|contradiction].
+    destruct (lpos_Some _ _ _ E) as [Hk <-]. apply nth_In. exact Hk.
+Qed.
+
+Theorem uc_total_lemma rs :
+  (forall r, In r rs -> is_hs r = true -> rsplit_us (u_query r) <> None) -> exists t, parse_uc rs = ROk t.
+Proof.
+  intros H. unfold parse_uc. pose proof (uc_fold_inv rs) as Inv. destruct (uc_fold rs) as [s|c].
+  - destruct Inv as [_ _ _ Ir _ _]. unfold uc_matrix, to_dense, to_coo, coo_checked. cbn [fst snd]. rewrite Ir.
+    eexists. reflexivity.
+  - destruct Inv as (_ & r & A & B & C). exfalso. exact (H r A B C).
+Qed.
+
+Theorem uc_error_lemma rs c : parse_uc rs = RErr c ->
+  c = E_VALUE /\ exists r, In r rs /\ is_hs r = true /\ rsplit_us (u_query r) = None.
+Proof.
+  unfold parse_uc. pose proof (uc_fold_inv rs) as Inv. destruct (uc_fold rs) as [s|c'].
+  - destruct Inv as [_ _ _ Ir _ _]. unfold uc_matrix, to_dense, to_coo, coo_checked. cbn [fst snd]. rewrite Ir. discriminate.
+  - intros H. inversion H; subst. exact Inv.
+Qed.
+
+(* the sample id is the part of the query label before its LAST underscore *)
+Lemma rsplit_none q : rsplit_us q = None <-> ~ In UNDERSCORE q.
+Proof.
+  induction q as [|c q IH]; simpl; [tauto|].
+  destruct (rsplit_us q) as [pre|] eqn:E.
+  - split; [discriminate|]. intros H. exfalso. assert (X : ~ In UNDERSCORE q) by tauto.
+    apply IH in X. discriminate.
+  - destruct (Z.eqb c UNDERSCORE) eqn:Ec.
+    + apply Z.eqb_eq in Ec. split; [discriminate|]. intros H. exfalso. apply H. left. exact Ec.
+    + apply Z.eqb_neq in Ec. split; [|reflexivity]. intros _ [F|F]; [exact (Ec F)|]. apply (proj1 IH eq_refl). exact F.
+Qed.
+
+Theorem rsplit_last pre suf : ~ In UNDERSCORE suf -> rsplit_us (pre ++ UNDERSCORE :: suf) = Some pre.
+Proof.
+  intros H. induction pre as [|c pre IH]; simpl.
+  - apply rsplit_none in H. rewrite H. reflexivity.
+  - rewrite IH. reflexivity.
+Qed.
+
+(* first-seen ids are recorded once *)
+Lemma NoDup_snoc {A} (x : A) l : NoDup l -> ~ In x l -> NoDup (l ++ [x]).
+Proof.
+  induction l as [|y l IH]; simpl; intros N H; [constructor; [intros []|constructor]|].
+  inversion N as [|? ? Hy Nl]; subst. constructor.
+  - intros Hin. apply in_app_iff in Hin. destruct Hin as [Hin|[Hin|[]]]; [contradiction|]. apply H. left. symmetry. exact Hin.
+  - apply IH; [exact Nl|]. intros Hin. apply H. right. exact Hin.
+Qed.
+
+Lemma intern_nodup x l : NoDup l -> NoDup (snd (intern x l)).
+Proof.
+  intros N. unfold intern. destruct (lpos x l) eqn:E; simpl; [exact N|].
+  apply lpos_None in E. apply NoDup_snoc; assumption.
+Qed.
+
+Lemma uc_step_nodup s r s' : uc_step (ROk s) r = ROk s' ->
+  NoDup (us_obs s) -> NoDup (us_samp s) -> NoDup (us_obs s') /\ NoDup (us_samp s').
+Proof.
+  unfold uc_step. intros H No Ns.
+  pose proof (intern_nodup (observation_of r) (us_obs s) No) as N1.
+  destruct (intern (observation_of r) (us_obs s)) as [oi obs'] eqn:Eo. simpl in N1.
+  destruct (u_kind r).
+  - destruct (rsplit_us (u_query r)) as [sid|]; [|discriminate].
+    pose proof (intern_nodup sid (us_samp s) Ns) as N2.
+    destruct (intern sid (us_samp s)) as [si samp']. simpl in N2. inversion H; subst. simpl. tauto.
+  - destruct (rsplit_us (u_query r)) as [sid|]; [|discriminate].
+    pose proof (intern_nodup sid (us_samp s) Ns) as N2.
+    destruct (intern sid (us_samp s)) as [si samp']. simpl in N2. inversion H; subst. simpl. tauto.
+  - inversion H; subst. simpl. tauto.
+  - inversion H; subst. tauto.
+Qed.
+
+Theorem uc_ids_nodup rs t : parse_uc rs = ROk t -> NoDup (ut_obs t) /\ NoDup (ut_samp t).
+Proof.
+  unfold parse_uc.
+  assert (G : forall s, uc_fold rs = ROk s -> NoDup (us_obs s) /\ NoDup (us_samp s)).
+  { induction rs as [|r rs IH] using rev_ind; intros s H.
+    - inversion H; subst. simpl. split; constructor.
+    - rewrite uc_fold_snoc in H. destruct (uc_fold rs) as [s0|c]; [|discriminate].
+      destruct (IH s0 eq_refl) as [A B]. apply (uc_step_nodup s0 r s H A B). }
+  destruct (uc_fold rs) as [s|c]; [|discriminate]. destruct (G s eq_refl) as [A B].
+  destruct (uc_matrix s) as [[[a b] m]|c]; [|discriminate]. intros H. inversion H; subst. simpl. tauto.
+Qed.
+
+(* _from_uc with a representative set: only the observation ids change *)
+Theorem from_uc_rename_lemma rs m t' : from_uc rs (Some m) = ROk t' ->
+  exists t, parse_uc rs = ROk t /\ ut_mat t' = ut_mat t /\ ut_samp t' = ut_samp t /\
+    rename_all m (ut_obs t) = Some (ut_obs t') /\ ldup (ut_obs t') = false.
+Proof.
+  unfold from_uc. destruct (parse_uc rs) as [t|c]; [|discriminate].
+  destruct (rename_all m (ut_obs t)) as [new|] eqn:E; [|discriminate].
+  destruct (ldup new) eqn:D; [discriminate|]. intros H. inversion H; subst. exists t. simpl. tauto.
+Qed.
+
+(* ================================================================== F. all forms agree *)
+Definition encodings_shape_free (c : nat) (m : matrix) : list cinput :=
+  [enc_array c m; enc_lists m; enc_triples m; enc_triples_zeros m; enc_dict m; enc_rowarrays m;
+   enc_sparserows c m; enc_sparse c m].
+Definition all_encodings (c : nat) (m : matrix) : list cinput := enc_rowdicts m :: encodings_shape_free c m.
+
+Lemma encodings_faithful c m inp : rect c m -> In inp (encodings_shape_free c m) ->
+  to_dense inp (length m, c) = ROk (length m, c, m).
+Proof.
+  intros R H. unfold encodings_shape_free in H. simpl in H.
+  destruct H as [<-|[<-|[<-|[<-|[<-|[<-|[<-|[<-|[]]]]]]]]].
+  - apply faithful_array; [exact R|reflexivity].
+  - apply faithful_lists; [exact R|intros ->; reflexivity].
+  - apply faithful_triples; exact R.
+  - apply faithful_triples_zeros; exact R.
+  - apply faithful_dict; exact R.
+  - apply faithful_rowarrays; [exact R|intros ->; reflexivity].
+  - apply faithful_sparserows; [exact R|intros ->; reflexivity].
+  - apply faithful_sparse; exact R.
+Qed.
+
+Lemma all_encodings_faithful c m inp : rect c m -> has_nonzero m -> In inp (all_encodings c m) ->
+  to_dense inp (length m, c) = ROk (length m, c, m).
+Proof.
+  intros R Hnz [<-|H]; [apply faithful_rowdicts; assumption|apply encodings_faithful; assumption].
+Qed.
+
+Lemma construct_by_dense p i1 i2 oids sids omd smd ty :
+  to_dense i1 (length oids, length sids) = to_dense i2 (length oids, length sids) ->
+  construct p i1 oids sids omd smd ty = construct p i2 oids sids omd smd ty.
+Proof. intros H. unfold construct. rewrite H. reflexivity. Qed.
+
+Theorem forms_agree_lemma c m i1 i2 p oids sids omd smd ty :
+  rect c m -> length oids = length m -> length sids = c ->
+  (has_nonzero m /\ In i1 (all_encodings c m) /\ In i2 (all_encodings c m)
+   \/ In i1 (encodings_shape_free c m) /\ In i2 (encodings_shape_free c m)) ->
+  construct p i1 oids sids omd smd ty = construct p i2 oids sids omd smd ty.
+Proof.
+  intros R Ho Hs H. apply construct_by_dense. rewrite Ho, Hs.
+  destruct H as [(Hnz & A & B)|(A & B)].
+  - rewrite (all_encodings_faithful c m i1 R Hnz A), (all_encodings_faithful c m i2 R Hnz B). reflexivity.
+  - rewrite (encodings_faithful c m i1 R A), (encodings_faithful c m i2 R B). reflexivity.
 Qed.
